@@ -1072,7 +1072,7 @@ class Cache(object):
             if i.value is None or i.address is None or i.output_n is None:    # pragma: no cover
                 _logger.info("Caching failure tx: Input value, address or output_n missing")
                 return False
-            witnesses = int_to_varbyteint(len(i.witnesses)) + b''.join([bytes(varstr(w)) for w in i.witnesses])
+            witnesses = i.witness_data()
             new_node = DbCacheTransactionNode(txid=txid, address=i.address, index_n=i.index_n, value=i.value,
                                               is_input=True, ref_txid=i.prev_txid, ref_index_n=i.output_n_int,
                                               script=i.unlocking_script, sequence=i.sequence, witnesses=witnesses)
